@@ -270,7 +270,10 @@ def check_state_preparation(idx: Index, rep: Report, tier: str):
     s2, s3 = 1 / math.sqrt(2), 1 / math.sqrt(3)
     vectors = [[0.6, 0.8], [0.6, -0.8j], [0, 1], [1, 0], [s2, s2 * 1j],
                [1, 0, 1j, 0], [0.5, 0.5j, -0.5, 0.5], [0, 0, 0, 1], [0, 1, 0, 0], [s2, 0, 0, -s2], [0.5, 0.5, 0.5, 0.5], [s3, 0, s3 * 1j, -s3], [0, s2, s2 * cmath.exp(0.3j), 0],
-               [1, 0, 0, 0, 0, 0, 0, 1j], [0.5, 0, 0.5j, 0, -0.5, 0, 0, 0.5], [1, 1j, -1, -1j, 1, 1, 1, 1], [0, 0, 0, 0, 0, 1, 0, 0], [1, 0, 1j, 0, -1, 0, -1j, 0], [2, 1, 0, 1j, 0, 0, 3, -1]]
+               [1, 0, 0, 0, 0, 0, 0, 1j], [0.5, 0, 0.5j, 0, -0.5, 0, 0, 0.5], [1, 1j, -1, -1j, 1, 1, 1, 1], [0, 0, 0, 0, 0, 1, 0, 0], [1, 0, 1j, 0, -1, 0, -1j, 0], [2, 1, 0, 1j, 0, 0, 3, -1],
+               # relative phases of a peeling level that are non-zero but cancel in sum / in mean (seeded C20-8: a multiplexor skipped on `sum(angles) == 0`)
+               [1, -1, -1, 1], [1, 1j, 1, -1j], [1, cmath.exp(0.3j), 1, cmath.exp(-0.3j)], [0, cmath.exp(0.3j), cmath.exp(-0.3j), 0],
+               [1, cmath.exp(0.3j), 1, cmath.exp(-0.3j), 1, cmath.exp(0.5j), 1, cmath.exp(-0.5j)], [1, 1, 1, 1, 1, -1, -1, 1]]
     if tier == "thorough":
         vectors += [[(0.3 + 0.1 * k) * cmath.exp(0.7j * k * k) for k in range(8)], [1 if k % 3 == 0 else 0 for k in range(8)], [(-1) ** k * (k + 1) for k in range(4)],
                     [cmath.exp(1j * k) if k in (1, 6) else 0 for k in range(8)]]
@@ -306,7 +309,7 @@ def check_state_preparation(idx: Index, rep: Report, tier: str):
                reason="; ".join(bad_i[:2]))
     rep.decide(not bad_u, rule, f, f.node, text=f"uncomputing_circuit on {n} (vector, order) pairs: the vector is mapped to |0..0> times the returned phase",
                what="the uncomputing circuit maps the vector back to |0...0> (up to the returned global phase)", reason="; ".join(bad_u[:2]))
-    rep.floor("state preparations folded", n, 30)
+    rep.floor("state preparations folded", n, 42)
 
 
 def _fmt(v) -> str:
